@@ -112,6 +112,8 @@ def area_forms(x, y, z, t, W, H):
         forms.append(("neg-end", (x, y, z - W, t - H)))
         forms.append(("neg-end-col", (x, y, z - W, t)))
         forms.append(("neg-end-row", (x, y, z, t - H)))
+        forms.append(("neg-list", list(neg)))
+        forms.append(("neg-end-list", [x, y, z - W, t - H]))
     return forms
 
 
@@ -151,8 +153,14 @@ def check_place(t, g, rng, res):
         bound = "inner" if (z < W - 1 and tt < H - 1) else ("to-edge" if (z < W and tt < H) else "beyond")
         exp = g.area(x, y, z, tt)
         for form, c in area_forms(x, y, z, tt, W, H):
+            given = list(c) if isinstance(c, list) else None
             jud("get_values", form, bound)
             v = [list(r) for r in t.get_values(c)]
+            if given is not None and c != given:
+                # the caller's list is the caller's: an area counted from the end must still be counted from the end
+                # when the same list is used again (after the table grew or shrank)
+                bad("get_values:argument-rewritten", form, given, list(c), given)
+                c[:] = given
             if not TL.matrix_equal(v, exp):
                 bad("get_values", form, c, v, exp)
             jud("iter_values", form, bound)
@@ -174,6 +182,8 @@ def check_place(t, g, rng, res):
             cols = t.get_columns(c)
             if [cc.x for cc in cols] != list(range(x, min(z, W - 1) + 1)):
                 bad("get_columns", form, c, [cc.x for cc in cols], list(range(x, min(z, W - 1) + 1)))
+            if given is not None and c != given:
+                bad("area-readers:argument-rewritten", form, given, list(c), given)
     # ---- partial forms: column ranges and row ranges
     x = rng.randrange(W)
     z = rng.randint(x, W - 1)
